@@ -23,6 +23,6 @@ else
   # while other workers run checks against /repo, use a scratch copy of /repo's working tree instead of /repo itself
   S=/tmp/seedcheck-$$; rm -rf $S; mkdir -p $S; cp -r /repo/src $S/src
   patch -s -p1 -d $S < $D/patch.diff || { echo "DOES NOT APPLY TO COPY"; rm -rf $S; exit 2; }
-  for c in "$@"; do echo "== check $c on seeded copy"; PFST_REPO=$S ./check $c 2>&1 | grep -E "VIOLATION|HELD|VIOLATED|BROKEN" | head -4; done
+  for c in "$@"; do echo "== check $c on seeded copy"; PFST_REPO=$S VERIF_EVIDENCE_DIR=$S/evidence ./check $c 2>&1 | grep -E "VIOLATION|HELD|VIOLATED|BROKEN" | head -4; done
   rm -rf $S
 fi
